@@ -88,18 +88,30 @@ def check_layout(ctx, g, sig):
             ok = False
             break
     ctx.check(ok, "data-axes-disagree-with-data-points", {"sig": sig})
-    pts, cells_ = np.atleast_2d(g.points), g.cells
+    try:
+        pts, cells_ = np.atleast_2d(g.points), g.cells
+    except (symx.PathAbort, symx.SymbolicLeak, symx.HarnessError):
+        raise
+    except Exception as e:  # pylint: disable=broad-except
+        ctx.fail("points-or-cells-raise", {"sig": sig, "error": type(e).__name__})
+        return
     ctx.check(pts.shape[0] == g.point_count, "point-count")
     ctx.check(cells_.shape[0] == g.cell_count, "cell-count")
     ctx.check(bool(np.all(cells_ >= 0) and np.all(cells_ < g.point_count)), "cell-references-missing-point",
               {"sig": sig})
     cen = np.atleast_2d(g.cell_centers)
+    if not (np.all(cells_ >= 0) and np.all(cells_ < g.point_count)):
+        return  # reported above; the remaining checks would index out of range
     mean = np.array([pts[c].mean(axis=0) for c in cells_])
     ctx.check(cen.shape == mean.shape and bool(np.allclose(cen, mean)), "cell-centre-not-mean-of-nodes",
               {"sig": sig})
     # every cell really is the axis-aligned box spanned by its nodes, all cells distinct
     ctx.check(len({tuple(np.round(c, 9)) for c in cen}) == g.cell_count, "duplicate-cells", {"sig": sig})
-    u = g.to_unstructured()
+    try:
+        u = g.to_unstructured()
+    except Exception as e:  # pylint: disable=broad-except
+        ctx.fail("unstructured-cast-fails", {"sig": sig, "error": type(e).__name__})
+        return
     ctx.check(bool(np.allclose(np.atleast_2d(u.points), pts)) and bool(np.array_equal(u.cells, cells_)),
               "unstructured-cast-points-cells", {"sig": sig})
     ctx.check(bool(np.allclose(np.atleast_2d(u.data_points), dp)), "unstructured-cast-data-points", {"sig": sig})
